@@ -315,6 +315,21 @@ def run_case(i, rng, rec, tier, state):
                           lambda: dict(info, shape=ri.shape, dtype=str(ri.dtype)))
             except Exception as e:
                 rec.violation("batch-vs-single", f"{which}.is_inside/rejects-{form}-input", dict(info, points=ip[:4], exc=repr(e)[:300]))
+    # the same points in the other memory layouts a caller may hold them in (Fortran order, strided views, read-only):
+    # each call is judged by the membership monitor; the answers must equal the batch's and the argument must stay as it was
+    sub = np.sort(rng.choice(len(pts), size=min(40, len(pts)), replace=False))
+    for lab, arr in points.layouts(pts[sub]):
+        rec.cls("layout:" + lab)
+        keep = arr.copy()
+        try:
+            rl = np.asarray(s.is_inside(arr))
+        except Exception as e:
+            rec.violation("batch-vs-single", f"{which}.is_inside/rejects-{lab}-array", dict(info, exc=repr(e)[:300]))
+            continue
+        cm = band[sub] > MARGIN * bsize
+        rec.check("batch-vs-single", rl.shape == (len(sub),) and bool(np.all(rl[cm] == res[sub][cm])), f"{which}.is_inside/answer-depends-on-memory-layout:{lab}",
+                  lambda: dict(info, layout=lab))
+        rec.check("batch-vs-single", np.array_equal(arr, keep), f"{which}.is_inside/modifies-argument:{lab}", lambda: dict(info, layout=lab))
     if len(pts) > 1:
         perm = rng.permutation(len(pts))
         r2 = np.asarray(s.is_inside(pts[perm].copy()))
